@@ -4,6 +4,7 @@ package scen
 
 import (
 	"fmt"
+	"strings"
 
 	"github.com/vapourismo/knx-go/knx"
 	"github.com/vapourismo/knx-go/knx/knxnet"
@@ -235,6 +236,12 @@ func c05Oracle(p c05Params) func(tr *mc.Trace) []h.Violation {
 			}
 			return sends[id]
 		}
+		overflow := false
+		for _, e := range tr.Log {
+			if sp, ok := e.V.(mc.Spawned); ok && strings.Contains(sp.Site, "pushInbound") {
+				overflow = true
+			}
+		}
 		for _, e := range tr.Log {
 			switch x := e.V.(type) {
 			case Bus:
@@ -315,8 +322,10 @@ func c05Oracle(p c05Params) func(tr *mc.Trace) []h.Violation {
 				bad("acked-not-accepted", "the gateway obtained an acknowledgement for telegram %d but the client never accepted it (accepted: %v, acknowledged: %v)", id, accepted, gwAcked)
 				continue
 			}
-			if apos[id] < last {
-				bad("accept-order", "client accepted %v, gateway order %v", accepted, gwAcked)
+			if apos[id] < last && !overflow {
+				// (with a parked delivery the hand-over order is C17's subject and known finding; the
+				// acceptance order itself is fixed by the expected-number rule that C04 checks)
+				bad("accept-order", "client handed over %v without parking any delivery, gateway order %v", accepted, gwAcked)
 			}
 			last = apos[id]
 		}
